@@ -25,6 +25,7 @@ package vgirpc
 //@   property C34
 //@   reveal cnt
 //@   requires segOK(s)
+//@   modifies nothing
 //@   ensures result == cnt(s)
 
 //@ func (*ShmSegment).readAllocs
@@ -32,6 +33,7 @@ package vgirpc
 //@   reveal cnt, entOff, entLen
 //@   requires segOK(s) && cnt(s) <= 4094
 //@   fresh
+//@   modifies nothing
 //@   ensures len(result) == cnt(s)
 //@   ensures forall k int :: 0 <= k && k < cnt(s) ==> result[k][0] == entOff(s,k) && result[k][1] == entLen(s,k)
 //@   loop 0 invariant 0 <= i && i <= n
@@ -82,6 +84,7 @@ package vgirpc
 //@ func (*ShmSegment).canFitLocked
 //@   property C34
 //@   requires segOK(s) && wfTable(s)
+//@   modifies nothing
 //@   ensures !result ==> noFit(s, size)
 //@   ensures result ==> !noFit(s, size)
 //@   loop 0 invariant rangeindex < len(allocs)
